@@ -371,6 +371,12 @@ func (u *Unit) pureResult(st *State, fn *types.Func, resT types.Type, x *ast.Cal
 
 func (u *Unit) convert(st *State, v *Val, to types.Type, at ast.Node) *Val {
 	kf, kt := kindOf(v.T), kindOf(to)
+	if b, ok := v.T.(*types.Basic); ok && b.Kind() == types.UntypedNil {
+		if kt == kSlice {
+			return u.zeroVal(st, to)
+		}
+		return &Val{T: to, S: "0"}
+	}
 	switch {
 	case isIface(to):
 		return u.convertForAssign(st, v, to)
@@ -495,6 +501,11 @@ func (u *Unit) builtin(st *State, name string, x *ast.CallExpr) *Val {
 			es := sortOf(elemType(s.T))
 			na := u.d.fresh("cat", arrSort(SInt, es))
 			st.assumeFact(fmt.Sprintf("(forall ((i Int)) (! (= (select %s i) (ite (< i %s) (select %s i) (select %s (- i %s)))) :pattern ((select %s i))))", na, s.Len, s.Arr, o.Arr, s.Len, na))
+			if s.Nil == "true" && es == SInt {
+				if _, ok := u.eng.cs.GhostFields["backing"]; ok {
+					st.assumeFact(tEq(app(u.d.fun("region!slice", []string{arrSort(SInt, SInt)}, SInt), na), "0"))
+				}
+			}
 			return &Val{T: s.T, Arr: na, Len: app("+", s.Len, o.Len), Nil: tAnd(s.Nil, o.Nil)}
 		}
 		arr, n := s.Arr, s.Len
@@ -512,6 +523,12 @@ func (u *Unit) builtin(st *State, name string, x *ast.CallExpr) *Val {
 		nilT := "false"
 		if len(x.Args) == 1 {
 			nilT = s.Nil
+		}
+		if s.Nil == "true" && sortOf(et) == SInt {
+			// appending to the nil slice allocates private memory (ownership device)
+			if _, ok := u.eng.cs.GhostFields["backing"]; ok {
+				st.assumeFact(tEq(app(u.d.fun("region!slice", []string{arrSort(SInt, SInt)}, SInt), arr), "0"))
+			}
 		}
 		return &Val{T: s.T, Arr: arr, Len: n, Nil: nilT}
 	case "make":
